@@ -27,7 +27,7 @@ def ensure_driver():
         raise RuntimeError("model driver build failed: " + (r.stdout + r.stderr)[-800:])
 
 
-def run_groups(groups, proj=proj_all, stats=None, model=True):
+def run_groups(groups, proj=proj_all, stats=None, model=True, skip_spins=True):
     """returns list of records; unsupported grammars are counted in stats['unsupported']"""
     stats = stats if stats is not None else {}
     lines, recs = [], []
@@ -51,7 +51,7 @@ def run_groups(groups, proj=proj_all, stats=None, model=True):
         for inp in inputs:
             for mode in modes:
                 for entry in entries:
-                    if inp in spins:
+                    if skip_spins and inp in spins:
                         stats["skipped_after_spin"] = stats.get("skipped_after_spin", 0) + 1
                         continue
                     cid = "c%d" % n
